@@ -5,7 +5,7 @@ from lib import vlib
 RULE = ("schedules: for each script configuration the harness derives the instruction shape of the real script, TLC explores "
         "every interleaving of Run / Invoker / Abort / Eval.run / cancel at hook-to-hook grain (safety + liveness), and exports "
         "one schedule per transition of the state graph (edge cover); each schedule is forced on real goroutines through the "
-        "sync-point gates, then all gates open and the property is judged on the real outcome, including three later scripts on the same VM (an error outside any try statement, a try statement, a plain return; configurations with the abort striking inside try statements of the main function); non-trivial = the schedule "
+        "sync-point gates, then all gates open and the property is judged on the real outcome, including three later scripts on the same VM (an error outside any try statement, a try statement, a plain return; configurations with the abort striking inside try statements of the main function); histories: one Invoker (pooled / unpooled) kept for three calls of a function that loops in call 1, 2 or 3, Abort once that call runs; non-trivial = the schedule "
         "contains an Abort that began after Run's reset, or a cancellation")
 
 CONFIGS_QUICK = ["run-cb2-inf", "run-cb1-nopool", "run-try-call", "run-plain", "eval-cb", "eval-cbinf"]
@@ -71,6 +71,24 @@ def run(ctx):
             raise vlib.Inconclusive("no schedules for %s" % name)
         ctx.cov.setdefault("schedules", {})[name] = n
         total += n
+    # one Invoker kept for several calls: Abort while its k-th call is running
+    rres = ctx.path("reuse.ndjson")
+    ctx.vh("abortreuse", rres, timeout=600)
+    nreuse = 0
+    for r in vlib.read_ndjson(rres):
+        if r.get("done"):
+            nreuse = r["n"]
+            continue
+        ctx.evaluations += 1
+        ctx.traces_validated += 1
+        key = "reuse|%s|%s|%s" % (r["pooled"], r["k"], r["catch"])
+        ctx.nontrivial.add(key)
+        if not r["ok"]:
+            ctx.violation(key, "one Invoker (pooled=%s) invoked three times, the function loops in call %d (callback inside try: %s): %s\n%s" % (r["pooled"], r["k"], r["catch"], r["what"], r["src"]),
+                          dict(config="reuse", pooled=r["pooled"], k=r["k"], what=r["what"], sched=[]))
+    if nreuse == 0:
+        raise vlib.Inconclusive("no reuse histories ran")
+    ctx.cov["invoker_reuse_histories"] = nreuse
     ctx.exhaustive = all(ctx.cov['schedules'][k] == ctx.cov['schedules_exported'][k] for k in ctx.cov['schedules'])
     ctx.assumptions += ["gates at the verif sync points are the only places where goroutines of the experiment interleave (hook-to-hook atomicity; lock-protected segments are atomic)",
                         "instruction shape of each script is derived from a dry run of the real code"]
